@@ -470,6 +470,7 @@ def train_classifier(prop):
         elif prop == "C16":
             k = int(flags.get("K", "0"))
             bad = None
+            bad_keys = []
             keys = ("CLOSE", "CLOSED")
             if "SYNTH" in flags:
                 # models with transformed weights: the raw connector is judged by the K+1 rule as long as the
@@ -487,6 +488,7 @@ def train_classifier(prop):
                 d = _close_val(v)
                 if d is not None and d > k + 1:
                     bad = f"{key}={v} K={k}"
+                    bad_keys.append(key)
             if flags.get("BIG") == "0":
                 bad = (bad or "") + " BIG=0"
             if flags.get("DIMS") == "0":
@@ -500,6 +502,10 @@ def train_classifier(prop):
                     info["prop_fail"] = "feature-value-with-slash-breaks-bigram-cost"
                 elif flags.get("ZERO") == "1":
                     info["prop_fail"] = "all-zero-model-scale"
+                elif bad_keys == ["CLOSED"] and flags.get("BIG") != "0" and flags.get("DIMS") != "0":
+                    # the raw connector is within K+1, only the dual connector is off: its pre-summed part left 16 bits
+                    # and was saturated (the stated caveat of C07; finding F28)
+                    info["prop_fail"] = "dual-connector-presum-saturates-i16"
                 else:
                     info["prop_fail"] = "bigram-vs-matrix-beyond-K+1"
                 info["why"] = "connection cost from the bigram files differs from matrix.def by more than K+1 (or the bigram files do not compile): " + bad
